@@ -37,6 +37,14 @@ CHECKS.update({
    text="Exploration. Random histories of match/loss/write/ACKNACK (boundary bases last and last+1) around the call; success only when the model's pending set is empty, prompt success when it is, timeout not before the requested time, async future re-polled only when its waker fired.",
    note="False yes is looked for during 3 ms windows and at the end; upper completion bound is a watchdog (8 s), not a verdict.", ref="3/C20"),
 })
+CHECKS.update({
+ "C10": dict(engine="E-CODEC/QoS", technique="runtime monitoring against a reference RxO table: exhaustive per-policy pair enumeration plus sampled conjunctions, through the public compliance function and through both Reader/Writer match call sites",
+   text="Per-policy request/offered tables are enumerated completely (all absent+value pairs, durations 0/1 ms/1 s/2 s/infinite) and compared with a table written from DDS 1.4; 60k+ random full policy sets check the conjunction, that a reported cause is really incompatible, and that Reader::update_writer_proxy and Writer::update_reader_proxy reach the table's verdict.",
+   note="Per-policy part exhaustive over the listed value domains; the conjunction part is sampled. Partition/time-based-filter/lifespan are not RxO policies in this implementation.", ref="3/C10", category="exploration"),
+ "C14": dict(engine="E-CODEC/RTPS", technique="runtime monitoring: messages built by the implementation's own constructors are serialised, parsed back and compared; an independent walker re-derives framing, flags and every field from the bytes; number-set membership rules",
+   text="Exploration. 1-5 submessages per message from MessageBuilder / create_submessage / direct structs with boundary values, inline QoS, payload lengths of every residue mod 4, 0-256-bit number sets, per-submessage endianness. Oracles: structural round trip, canonical re-serialisation, framing (lengths, alignment, end), flags vs content, field-level equality with an independent decoder, number-set window rules.",
+   note="HEARTBEAT_FRAG, INFO_REPLY and the security submessages are not generated in the default-feature build; interoperability with other vendors is out of reach offline.", ref="3/C14"),
+})
 NOT_YET = {}
 
 def main():
@@ -70,6 +78,7 @@ def main():
             {"name": "E-WIRE/ReaderBench", "path": "/verif/incrate/rbench.rs + /verif/harness/vcheck/src/rdr.rs", "serves_properties": ["C01", "C03", "C05"], "kind_free_text": "deterministic single-thread protocol bench: hand-built Reader+MessageReceiver wired to real DataReader flavours; datagrams injected as bytes, replies captured at the UDPSender tap"},
             {"name": "E-WIRE/WriterBench", "path": "/verif/incrate/wbench.rs + hooks_writer.rs + /verif/harness/vcheck/src/{wtr,wfa}.rs", "serves_properties": ["C04", "C20"], "kind_free_text": "hand-built Writer wired to a real DataWriter; fake readers as byte-level ACKNACK sources; timers replaced by explicit steps"},
             {"name": "E-WIRE/Link", "path": "/verif/harness/vcheck/src/link.rs", "serves_properties": ["C02", "C05"], "kind_free_text": "WriterBench and ReaderBench joined by a drop/dup/delay link in logical time"},
+            {"name": "E-CODEC", "path": "/verif/incrate/codec.rs + /verif/harness/vcheck/src/{c_codec,c_qos,qosref}.rs", "serves_properties": ["C10", "C14"], "kind_free_text": "in-crate generators over the implementation's constructors; independent walker and reference tables in the harness"},
             {"name": "E-API", "path": "/verif/harness/vcheck/src/api.rs", "serves_properties": ["C08", "C09"], "kind_free_text": "reference model of DDS sample/view/instance semantics in lock-step with a real DataReader fed through ReaderBench; subprocess shards with CPU-time watchdog for C09"},
         ],
         "checks": checks,
